@@ -17,6 +17,7 @@ from __future__ import annotations
 import datetime as dt_
 import zoneinfo
 
+from .. import worker
 from .. import core, obs, seeds
 from ..ref import tzref
 
@@ -223,7 +224,8 @@ def run_shard(shard):
     if shard.get("kind") == "chains":
         from .. import chain
         for sd in shard["seeds"]:
-            chain.explore(acc, pendulum, sd["z"], sd["inst"], sd["zones"], shard["depth"], {'conv'})
+            with worker.guarded(acc, "chain", {"kind": "chain", "z": sd["z"], "inst": sd["inst"], "zones": sd["zones"]}, 300):
+                chain.explore(acc, pendulum, sd["z"], sd["inst"], sd["zones"], shard["depth"], {'conv'})
             acc.c["nontrivial"] += 1
         acc.sample({"chain_seed": [shard["seeds"][0]["z"], obs.iso(shard["seeds"][0]["inst"])], "depth": shard["depth"],
                     "zones": [str(z) for z in shard["seeds"][0]["zones"]],
@@ -246,7 +248,8 @@ def run_shard(shard):
                 inter = _inter_for(z, tr, witness)
                 for inst in insts:
                     states += 1
-                    explore_state(acc, pendulum, z, inst, inter)
+                    with worker.guarded(acc, "conversion", {"kind": "state", "z": z, "inst": inst}):
+                        explore_state(acc, pendulum, z, inst, inter)
             if not isinstance(z, int) and plan_ and plan_[0][0] is not None:
                 acc.sample({"zone": z, "instant": obs.iso(plan_[0][1][0]),
                             "ops": ["in_timezone", "in_tz", "astimezone", "from_timestamp", "fromtimestamp",
